@@ -2,6 +2,7 @@ mod drive;
 mod families;
 mod gosem;
 mod irck;
+mod irstage;
 mod oracle;
 mod projects;
 mod replay;
@@ -96,6 +97,10 @@ fn conformance(verbose: bool) -> i32 {
     if bad > 0 || ok < 70 || t_bad > 0 { 2 } else { 0 }
 }
 
+fn oracle_first(e: &compiler::pipeline::pipeline::CompilationError) -> String {
+    e.diagnostics().iter().next().map(|d| d.message().to_string()).unwrap_or_default()
+}
+
 fn main() {
     let args: Vec<String> = std::env::args().collect();
     match args.get(1).map(|s| s.as_str()) {
@@ -152,6 +157,22 @@ fn main() {
             let src = std::fs::read_to_string(&path).unwrap();
             let r = parser::parse(&path, &src);
             println!("{}", parser::debug_tree(&r.green_node));
+        }
+        Some("irck") => {
+            // gomlmc irck <file.gom>… : stage checkers on single files (triage aid)
+            for a in &args[2..] {
+                let path = std::path::PathBuf::from(a);
+                let src = std::fs::read_to_string(&path).unwrap();
+                match oracle::compile_at(&path, &src) {
+                    oracle::CompileOutcome::Ok(c) => {
+                        let r = irck::check_all(&c);
+                        println!("{}: {} findings", a, r.len());
+                        for (st, m) in r { println!("  [{}] {}", st, m); }
+                    }
+                    oracle::CompileOutcome::Err(e) => println!("{}: COMPILE ERROR {:?}", a, oracle_first(&e)),
+                    oracle::CompileOutcome::Panic(m) => println!("{}: PANIC {}", a, m),
+                }
+            }
         }
         Some("try") => {
             let path = std::path::PathBuf::from(&args[2]);
